@@ -44,7 +44,7 @@ def run(prop, tier, seed, seconds):
     with cf.ThreadPoolExecutor(D.NPROC) as ex:
         bins = dict(zip(blist, ex.map(lambda b: build_one(*b), blist)))
     budget = seconds or (20 if tier == 'quick' else 240)
-    count = 40000 if tier == 'quick' else 100000000
+    count = 400000 if tier == 'quick' else 100000000
     results = {}
 
     def work(b):
